@@ -2,7 +2,7 @@
     Statements only; each closed by [exact].  Model: Store/Dims.v, proofs: Store/DimsProofs.v, Store/DimsOrder.v.
 
     [dstep b] is the model of the code path with the behaviour switches [b]: [code_today] is the pinned
-    tree, [repaired] the tree after notes/proposed-fixes/C13-append-dimension-checks.patch.  The theorems
+    tree, [code_head] the tree before the column-bound fix b527e42, [repaired] the tree with every fix: commit - /repo HEAD.  The theorems
     below are about [repaired] (or about every [b]); each [..._refuted] exhibits, by computation, that the
     statement fails for [code_today].  The LAST theorem, [current_is_repaired], is the open obligation: it
     checks only once the coordinator has set [Dims.current_behaviour := repaired] after the fix: commits. *)
@@ -252,8 +252,52 @@ Example C13_nonvacuous :
   offset_present (dfinal repaired (firstn 3 demo_ops) w_init) 3 = true.
 Proof. exact demo_run. Qed.
 
-(** THE OPEN OBLIGATION (keep last): the extracted driver runs the repaired behaviour, i.e. the defects
-    above are fixed in /repo.  Fails while [Dims.current_behaviour] is [code_today]. *)
+(** ---- further public routes ---- *)
+
+(** dimensions(filter) is dimensions() filtered (the walk is the same, the filter sees every descriptor) *)
+Theorem C13_dims_filter_route : forall b s k, gap_free (dims s) ->
+  snd (dstep b Dims s) = Ok (ADims (map (fun p => (fst p, kind_of (snd p))) (dims s))) /\
+  snd (dstep b (DimsOfKind k) s) =
+    Ok (ADims (filter (fun p => kind_eqb (snd p) k) (map (fun p => (fst p, kind_of (snd p))) (dims s)))).
+Proof. exact dims_filter_route. Qed.
+Print Assumptions C13_dims_filter_route.
+
+(** SampledDimension::operator[] is index * interval + offset on the stored interval and offset
+    (RangeDimension::operator[] is tickAt: the driver maps it to the same model call) *)
+Theorem C13_sampled_at : forall b s i k x off u l, lookup i (dims s) = Some (DSampled x off u l) ->
+  dstep b (SAt i k) s = (s, Ok (ATick (fadd (fmul (ofZ k) x) (match off with Some o => o | None => fzero end)))).
+Proof. exact sampled_at. Qed.
+Print Assumptions C13_sampled_at.
+
+(** DataFrameDimension::ticks<T> as implemented (and as the check judges it): every row of the column from the
+    offset, whatever [resize] and the size of the vector handed in *)
+Theorem C13_frame_ticks_all_rows : forall fs fo ci col rs vs off l fr, frame_of fs fo = Ok fr ->
+  frame_ticks false fs fo ci col rs vs off = Ok l -> zlen l = fr_rows fr - off.
+Proof. exact frame_ticks_all_rows. Qed.
+Print Assumptions C13_frame_ticks_all_rows.
+
+(** REMARK - a documentation discrepancy, NOT part of what C13 demands: the header documents "resize: if false, the
+    size of the vector is taken as the number of ticks to read"; the code always resizes.  With a vector of one
+    element and resize = false the code returns both rows, the documented rule would return one. *)
+Theorem C13_ticks_documented_rule_differs :
+  cells_len (snd (dstep repaired (FTicks 1 None false 1 0) (dfinal repaired [AppendFrameIdx (FOrd 0) 1] w_init))) = 2 /\
+  ticks_len (frame_ticks false [w_frame] (Some 0%nat) (Some 1) None false 1 0) = 2 /\
+  ticks_len (frame_ticks true [w_frame] (Some 0%nat) (Some 1) None false 1 0) = 1.
+Proof. exact ticks_documented_rule_differs. Qed.
+Print Assumptions C13_ticks_documented_rule_differs.
+
+(** before b527e42 ([code_head]): a column index EQUAL to the number of columns was accepted (and the descriptor's
+    label() then throws) *)
+Theorem C13_frame_column_refuted :
+  is_ok_ans (snd (dstep code_head (AppendFrameIdx (FOrd 0) 2) w_init)) = true /\
+  is_ok_ans (snd (dstep code_head (FQuery 1 QLabel None) (dfinal code_head [AppendFrameIdx (FOrd 0) 2] w_init))) = false /\
+  is_ok_ans (snd (dstep repaired (AppendFrameIdx (FOrd 0) 2) w_init)) = false /\
+  is_ok_ans (snd (dstep repaired (AppendFrameIdx (FOrd 0) 1) w_init)) = true.
+Proof. exact frame_col_refuted. Qed.
+Print Assumptions C13_frame_column_refuted.
+
+(** KEEP LAST: the extracted driver runs the repaired behaviour, i.e. every defect above is fixed in /repo.
+    Would fail if [Dims.current_behaviour] had to be set back to a behaviour with an open defect. *)
 Theorem current_is_repaired : current_behaviour = repaired.
 Proof. reflexivity. Qed.
 Print Assumptions current_is_repaired.
